@@ -946,4 +946,34 @@ def installFilesTargets (key : String) : List String :=
 def installerWrites (name : String) : Option String :=
   (installerTable.find? fun e => e.1 == name).map (·.2.2.2)
 
+/-! ## install.py `_locate_adas_file`: which copy of a file an installer parses -/
+
+/-- where the file that gets parsed comes from -/
+inductive Place
+  | adas       -- os.path.join(adas_path, file_path)
+  | cache      -- os.path.join(repository_path, "_download_cache", file_path)
+  | network    -- urllib.request.urlretrieve into the cache
+  deriving DecidableEq, Repr
+
+def Place.code : Place → String
+  | .adas => "adas" | .cache => "cache" | .network => "network"
+
+/-- `_locate_adas_file` transcribed: `adasGiven` = a non-empty `adas_path` was passed, `inAdas` / `inCache` =
+`os.path.isfile` of the two candidates.  `none` = returns None (the installers then raise ValueError). -/
+def locateAdasFile (download adasGiven inAdas inCache : Bool) : Option Place :=
+  let path : Option Place := if adasGiven && inAdas then some .adas else none
+  match path with
+  | some p => some p
+  | none => if download then (if inCache then some .cache else some .network) else none
+
+/-- the same as a candidate list, first available wins: the local ADAS tree, then (only with `download`) the cache, then
+the network, which is always "available" -/
+def locateCandidates (download adasGiven : Bool) : List Place :=
+  (if adasGiven then [Place.adas] else []) ++ (if download then [Place.cache, Place.network] else [])
+
+def placeAvailable (inAdas inCache : Bool) : Place → Bool
+  | .adas => inAdas
+  | .cache => inCache
+  | .network => true
+
 end Cherab.Adf
